@@ -57,6 +57,9 @@ type Config struct {
 	MaxSteps   int  // instructions per path
 	MapReverse bool // iterate builtin maps in reverse insertion order
 	RunInit    map[string]bool
+	SchedSteps int // scheduling points per path (bound)
+	Spurious   int // spurious condition wake-ups allowed per wait
+	Preempt    int // preemption bound of the scheduler (-1 unbounded)
 	SkipUserInits bool // do not run user-written init() functions (environment set-up)
 	RecursionFails string // obligation id violated when the recursion bound is exceeded
 }
@@ -85,6 +88,7 @@ type Exec struct {
 	nextIsDeferred bool
 	hugeNext  bool
 	keySeq    int
+	onceDone  map[uint64]bool
 	tls       map[int]map[uint64]Value
 	intrinsicFn *ssa.Function // the (instantiated) function an intrinsic stands for
 	initStores map[*ssa.Package]map[*ssa.Global]bool
@@ -107,9 +111,10 @@ type Intrinsic func(x *Exec, fr *frame, args []Value, call *ssa.CallCommon) Valu
 
 func NewExec(p *Program, m *core.Machine) *Exec {
 	x := &Exec{P: p, M: m, L: &Layout{PtrBits: 64}, Stubs: map[string]bool{}, Encoded: map[string]bool{}}
-	x.Cfg = Config{Unwind: 8, MaxDepth: 60, MaxSteps: 2000000}
+	x.Cfg = Config{Unwind: 8, MaxDepth: 60, MaxSteps: 2000000, Preempt: -1}
 	x.Intrinsic = map[string]Intrinsic{}
 	registerIntrinsics(x)
+	registerSchedIntrinsics(x)
 	x.hooks.OnWild = func(addr *smt.Term, what string) {
 		if os.Getenv("SYMX_DEBUG") != "" {
 			for f := x.curFrame; f != nil; f = f.caller {
@@ -218,6 +223,7 @@ func (x *Exec) threadID() int {
 func (x *Exec) resetPath() {
 	x.keySeq = 0
 	x.tls = nil
+	x.onceDone = nil
 	if os.Getenv("SYMX_DEBUG") != "" {
 		x.M.Mem.OnOOB = func(what string) {
 			for f := x.curFrame; f != nil; f = f.caller {
@@ -252,10 +258,12 @@ func (x *Exec) RunHarness(fn *ssa.Function) {
 				panic(r)
 			}
 		}()
+		defer func() {
+			if x.sched != nil {
+				x.sched.finish()
+			}
+		}()
 		x.call(nil, fn, nil, nil)
-		if x.sched != nil {
-			x.sched.finish()
-		}
 	})
 }
 
@@ -312,6 +320,11 @@ func (x *Exec) call(caller *frame, fn *ssa.Function, args []Value, bindings []Va
 	if in, ok := x.Intrinsic[name]; ok {
 		x.intrinsicFn = fn
 		return in(x, caller, args, nil)
+	}
+	if len(fn.Blocks) == 0 || fn.Origin() != nil {
+		if v, ok := x.atomicIntrinsic(fn, args); ok {
+			return v
+		}
 	}
 	if fn.Name() == "init" && fn.Pkg != nil && fn.Signature.Recv() == nil && fn.Synthetic != "" {
 		// package initialiser: only pure allow-listed packages are initialised
